@@ -12,6 +12,34 @@ _eff = {}
 ALLOW = {("virocon.jointmodels.TransformedModel.empirical_cdf", "_sample"), ("virocon.jointmodels.TransformedModel.sample", "_sample")}
 
 
+def memo_group(prog):
+    """attributes that belong to the sample memo of TransformedModel: `_sample` and what is stored together with it, in the same
+    branch of the `sample` property (the key the memo was drawn for)"""
+    import ast as _ast
+    try:
+        fn = prog.func("virocon.jointmodels.TransformedModel.sample")
+    except Exception:
+        return {"_sample"}
+    from vstat.terms import builder as _b
+    from vstat.guards import path_conditions as _pc
+    from vstat.cfg import cfg_of as _cfg
+    b = _b(prog, fn, inline=False)
+    pcs = _pc(prog, fn, b)
+    stores = [(st, st.targets[0].attr) for st in _cfg(fn).all_stmts() if isinstance(st, _ast.Assign) and isinstance(st.targets[0], _ast.Attribute)
+              and isinstance(st.targets[0].value, _ast.Name) and st.targets[0].value.id == "self"]
+    memo = [st for st, a in stores if a == "_sample"]
+    if not memo:
+        return {"_sample"}
+    cond = set(pcs.of(memo[0]))
+    return {"_sample"} | {a for st, a in stores if set(pcs.of(st)) == cond}
+
+
+def allowed(prog, qualname, attr):
+    if (qualname, attr) in ALLOW:
+        return True
+    return qualname in ("virocon.jointmodels.TransformedModel.empirical_cdf", "virocon.jointmodels.TransformedModel.sample") and attr in memo_group(prog)
+
+
 def effects(prog):
     if id(prog) not in _eff:
         _eff[id(prog)] = Effects(prog)
@@ -53,12 +81,12 @@ def stateless(prog, rep, rule, fns, self_writes_allowed=False, what="evaluation"
             if r[0] in ("param", "global"):
                 ln, why = s["why"].get(r, (fn.node.lineno, ""))
                 bad.append((f"{r[0]}:{r[1]}", f"{fn.file}:{ln}", f"{what} mutates {'the argument' if r[0] == 'param' else 'module-level state'} '{r[1]}': {why}"[:300]))
-            elif r[0] == "selfattr" and not self_writes_allowed and (fn.qualname, r[1]) not in ALLOW:
+            elif r[0] == "selfattr" and not self_writes_allowed and not allowed(prog, fn.qualname, r[1]):
                 ln, why = s["why"].get(r, (fn.node.lineno, ""))
                 bad.append((f"self.{r[1]}[...]", f"{fn.file}:{ln}", f"{what} mutates the object held in self.{r[1]}: {why}"[:300]))
         if not self_writes_allowed:
             for a in sorted(s["selfw"]):
-                if (fn.qualname, a) not in ALLOW:
+                if not allowed(prog, fn.qualname, a):
                     bad.append((f"self.{a}", fn.where(), f"{what} writes attribute self.{a}: the next call on the same object sees the value left by this one"))
         if bad:
             for inst, site, msg in bad:
